@@ -86,6 +86,29 @@ try:
         raise
     except Exception:
         pass
+    # an execution context built by scanning an extracted archive (it carries the list of files found at scan time): a scanned entry that has
+    # since become a link leaving the root is refused like any other - containment is judged when the file is read, not when it was listed
+    from insights.core.hydration import create_context
+    arch = os.path.join(tmp, "archive")
+    os.makedirs(os.path.join(arch, "etc"))
+    os.makedirs(os.path.join(tmp, "archive2"))
+    for rel_ in ("etc/hosts", "etc/conf", "insights_commands_placeholder"):
+        open(os.path.join(arch, rel_), "w").write("inside\n")
+    open(os.path.join(tmp, "archive2", "shadow"), "w").write("secret\n")
+    ctx = create_context(arch)
+    checked += 2
+    if TextFileProvider("etc/hosts", root=ctx.root, ctx=ctx).content != ["inside"]:
+        fail(violation="a file inside the root of a scanned archive was not served", root=ctx.root)
+    os.remove(os.path.join(arch, "etc", "conf"))
+    os.symlink(os.path.join(tmp, "archive2", "shadow"), os.path.join(arch, "etc", "conf"))
+    try:
+        content = TextFileProvider("etc/conf", root=ctx.root, ctx=ctx).content
+        fail(violation="a file outside the root was served (an entry of a scanned archive that became a link leaving the root)", root=ctx.root,
+             relative_path="etc/conf", content=content)
+    except SystemExit:
+        raise
+    except Exception:
+        pass
 finally:
     shutil.rmtree(tmp, ignore_errors=True)
 print(json.dumps({"ok": True, "deny_checks": n, "containment_cases": checked, "max_len": L}))
